@@ -31,7 +31,7 @@
           of the descent with fresh options, so a reference cycle that passes
           through a sub-dictionary is never detected: unbounded recursion, the
           process dies with a stack overflow (open finding)
-     "NoResolverSilentEmpty", "EnvSkippedForSingleSegment"
+     "NoResolverSilentEmpty", "EnvSkippedForSingleSegment", "ActiveKeyedByName"
           earlier behaviours, repaired by fix: commits, kept so that TLC and the
           harness show they would be caught.  (The third repaired one - the set of
           active names was never popped - needs the set THREADED through the
@@ -112,16 +112,26 @@ TryLayers(D, W, n, layers, A, lastErr) ==
        ELSE IF ~IsE(g) /\ "EnvSkippedForSingleSegment" \in D THEN NotFound
        ELSE TryLayers(D, W, n, Tail(layers), A, IF IsE(g) THEN g.err ELSE "")
 EnvOrder(W) == [j \in 1..Len(W.envs) |-> Len(W.envs) + 1 - j]
+\* A reference is identified by its name AND the tree its setting lives in (owner o): the same name looked up
+\* from inside an Env configuration is another reference.  (Deviation "ActiveKeyedByName": only the name - repaired.)
+Active(D, o, n, A) == IF "ActiveKeyedByName" \in D THEN \E p \in A : p[2] = n ELSE <<o, n>> \in A
 ResolveRef(D, W, o, n, A) ==
-  IF n \in A THEN LErr("cyclic")
+  IF Active(D, o, n, A) THEN LErr("cyclic")
   \* the reference is active WHILE its path is walked: an intermediate step that is itself a reference
   \* (a: ${a.k}) is evaluated under it and re-entering the name there is a cycle
-  ELSE TryLayers(D, W, n, <<o>> \o EnvOrder(W), A \cup {n}, "")
+  ELSE TryLayers(D, W, n, <<o>> \o EnvOrder(W), A \cup {<<o, n>>}, "")
 
 \* the resolvers, last added first; a resolver error moves on to the next one
+\* A resolver is a finite map name -> text (Resolve(fn)), or one of the two built-in ones:
+\*   [kind |-> "osenv", tab]  ResolveEnv: the process environment (an empty variable counts as unset)
+\*   [kind |-> "noop"]        ResolveNOOP: knows EVERY name and answers with the reference itself, "${name}", taken literally
+\* whatever the kind, they are asked in the reverse order of the options that added them
+IsKinded(r)  == "kind" \in DOMAIN r
+Knows(r, n)  == IF IsKinded(r) THEN (r.kind = "noop" \/ (n \in DOMAIN r.tab /\ r.tab[n] # "")) ELSE n \in DOMAIN r
+Answer(r, n) == IF IsKinded(r) THEN (IF r.kind = "noop" THEN "${" \o n \o "}" ELSE r.tab[n]) ELSE r[n]
 ResolverText(W, n) ==
-  LET known == {j \in 1..Len(W.res) : n \in DOMAIN W.res[j]} IN
-  IF known = {} THEN [known |-> FALSE] ELSE [known |-> TRUE, s |-> W.res[CHOOSE j \in known : \A x \in known : x <= j][n]]
+  LET known == {j \in 1..Len(W.res) : Knows(W.res[j], n)} IN
+  IF known = {} THEN [known |-> FALSE] ELSE [known |-> TRUE, s |-> Answer(W.res[CHOOSE j \in known : \A x \in known : x <= j], n)]
 
 \* reference.resolve / refDynValue.getValue: Found / TextRes / error
 Resolve(D, W, o, n, A) ==
@@ -150,7 +160,7 @@ ToValue(D, W, v, o, A) ==
          LET r == Resolve(D, W, o, v.e.n, A) IN
          CASE r.f = "err"   -> EErr(r.e)
            [] r.f = "text"  -> [ok |-> TextVal(r.s), o |-> o, s |-> A]
-           [] r.f = "found" -> ToValue(D, W, r.v, r.o, A \cup {v.e.n})
+           [] r.f = "found" -> ToValue(D, W, r.v, r.o, A \cup {<<o, v.e.n>>})
   ELSE LET t == EvalText(D, W, o, v.e, A) IN
        IF IsE(t) THEN t ELSE [ok |-> TextVal(t.ok), o |-> o, s |-> A]
 
@@ -166,7 +176,7 @@ RefEval(D, W, o, n, A) ==
   LET r == Resolve(D, W, o, n, A) IN
   CASE r.f = "err"   -> EErr(r.e)
     [] r.f = "text"  -> IF r.s = "" THEN EErr("unresolved") ELSE EOk(r.s)
-    [] r.f = "found" -> ToText(D, W, r.v, r.o, A \cup {n})
+    [] r.f = "found" -> ToText(D, W, r.v, r.o, A \cup {<<o, n>>})
 
 CatText(D, W, o, ps, acc, A) ==
   IF ps = <<>> THEN EOk(acc)
